@@ -99,7 +99,7 @@ def rnd_time(r, form):
 
 
 FOOTER_FORMS = ["M", "J", "N", "mixed", "neg-time", "big-time", "edge-time", "south", "neg-save", "allyear",
-                "std-only", "empty", "sec-offsets", "M", "mixed", "v1", "year-edge", "year-edge", "year-edge", "near-allyear", "max-straddle", "many-types", "both-cross"]
+                "std-only", "empty", "sec-offsets", "M", "mixed", "v1", "year-edge", "year-edge", "year-edge", "near-allyear", "max-straddle", "many-types", "both-cross", "near-allyear-mirror"]
 
 
 def footer_ok(p, min_sep=20 * SPD):
@@ -159,11 +159,12 @@ def gen_footer(r, form, used):
             t1 = -r.randrange(60, 120) * 3600
             gap = r.randrange(24, 60) * 3600
             footer += ",J1/" + fmt_hms(t1) + ",J1/" + fmt_hms(t1 + gap + save)
-        elif form == "near-allyear":
-            # almost permanent DST: like zic's "0/0,J365/25" but with a short standard-time window at the year end
+        elif form in ("near-allyear", "near-allyear-mirror"):
+            # almost permanent DST: like zic's "0/0,J365/25" but with a short standard-time window at the year end;
+            # the mirror form ends DST exactly as far *before* midnight as the permanent form ends it after
             if save <= 0:
                 continue
-            window = r.choice([2 * save, 2 * save + 1800, 3 * save, 7200 + save, 86400])
+            window = 2 * save if form == "near-allyear-mirror" else r.choice([2 * save, 2 * save + 1800, 3 * save, 7200 + save, 86400])
             footer += ",0/0,J365/" + fmt_hms(86400 + save - window)
         elif form == "year-edge":
             # one rule transition crosses the calendar-year boundary: early-January date with a negative time, or a
@@ -194,7 +195,7 @@ def gen_footer(r, form, used):
         if form == "allyear":
             if not p.allyear():
                 raise RuntimeError("not all-year: " + footer)
-        elif form == "near-allyear":
+        elif form in ("near-allyear", "near-allyear-mirror"):
             if p.allyear() or not footer_ok(p, min_sep=2 * save):
                 continue
         elif form == "both-cross":
@@ -585,6 +586,7 @@ def build_corpus(outdir, seed, n_s=120, n_early=12, n_ancient=8, n_z=40, r_sampl
         os.makedirs(d, exist_ok=True)
         i = 0
         made = 0
+        per_form = {}
         while made < n and i < n * 20:
             s = base + i
             i += 1
@@ -597,6 +599,23 @@ def build_corpus(outdir, seed, n_s=120, n_early=12, n_ancient=8, n_z=40, r_sampl
                 continue
             ents.append((klass, "s%07d-%s" % (s, meta["form"]), p, ""))
             made += 1
+            per_form[meta["form"]] = per_form.get(meta["form"], 0) + 1
+        if klass == "S" and n >= len(FOOTER_FORMS):
+            # every footer form is represented at least three times, whatever the filter rejected above
+            while i < n * 60 and any(per_form.get(fm, 0) < 3 for fm in set(FOOTER_FORMS)):
+                s = base + i
+                i += 1
+                if per_form.get(FOOTER_FORMS[s % len(FOOTER_FORMS)], 0) >= 3:
+                    continue
+                data, meta = gen_S(s, klass)
+                p = os.path.join(d, "s%07d" % s)
+                with open(p, "wb") as f:
+                    f.write(data)
+                if not domain_ok(p):
+                    os.unlink(p)
+                    continue
+                ents.append((klass, "s%07d-%s" % (s, meta["form"]), p, ""))
+                per_form[meta["form"]] = per_form.get(meta["form"], 0) + 1
     if n_z:
         for cls, name, p in build_Z(os.path.join(outdir, "Z"), [base + i for i in range(n_z)]):
             ents.append((cls, name, p, ""))
